@@ -7,7 +7,7 @@ from vf.ref import recheck as refcheck
 
 ID = "C05"
 LEVEL = "exploration"
-TECHNIQUE = "Hypothesis-generated intact payloads x metafiles from the tool's five creators and from an independent conformant encoder (shuffled v1 order, aligned v1, hybrid with/without trailing pad, v2 single file without info.length) x content path root/parent; oracle: Checker.results() == 100"
+TECHNIQUE = "Hypothesis-generated intact payloads x metafiles from the tool's five creators and from an independent conformant encoder (shuffled v1 order, aligned v1, hybrid with/without trailing pad, v2 single file without info.length) x content path root/parent; oracle: Checker.results() == 100 ; deterministic large-piece grid (2 MiB / 32 MiB pieces)"
 RULE = ("Cases: generated tree with non-empty total payload (any content incl. all-zero files, empty files, files ending on piece "
         "boundaries) x piece length x metafile source (own: TorrentFile, TorrentAssembler v2/hybrid, TorrentFileV2, TorrentFileHybrid; "
         "ref: reference encoder v1 sorted/shuffled order, aligned, hybrid with/without trailing pad, v2 single file with/without "
